@@ -386,7 +386,7 @@ func (m *C02Mon) End(h *Hand, s *pokerface.GameState) {
 		if p.Fold || alive < 2 {
 			continue
 		}
-		best, _, tainted, ok := bestAdmissible(p.HoleCards, s.Status.Board, c.Req, c.Short, c.Rankings())
+		best, _, tainted, ok := bestAdmissible(p.HoleCards, s.Status.Board, c.Req, c.Short, c.Short)
 		if !ok || tainted {
 			h.Rep.Inc("hands_skipped_unspecified_short_deck_straight")
 			return
@@ -433,7 +433,7 @@ type C10Mon struct {
 }
 
 func checkBestHand(hole, board []string, req int, short bool, pr combination.PowerRankings, rep *pokerface.CombinationInfo) (rule, msg string, cat int, nHole int) {
-	best, bestCards, _, ok := bestAdmissible(hole, board, req, short, pr)
+	best, bestCards, _, ok := bestAdmissible(hole, board, req, short, short)
 	if rep == nil {
 		return "C10/missing", "no hand reported", 0, 0
 	}
@@ -457,7 +457,7 @@ func checkBestHand(hole, board []string, req int, short bool, pr combination.Pow
 	if req > 0 && nHole != req {
 		return "C10/hole-card-count", fmt.Sprintf("reported hand %v uses %d hole cards of %v, exactly %d required", rep.Cards, nHole, hole, req), 0, nHole
 	}
-	rk, rh := refKey(rep.Cards, short, pr)
+	rk, rh := refKey(rep.Cards, short, short)
 	cat = rh.Cat
 	if !rh.Unspecified {
 		if ok && rk.Less(best) {
